@@ -459,8 +459,9 @@ def context_snapshot(ctx):
 def shared_state_signature():
     from pylatexenc.latexnodes.parsers import _stdarg
     items = []
-    for k in sorted(_stdarg._std_arg_parser_instances, key=repr):
-        inst = _stdarg._std_arg_parser_instances[k]
+    cache = getattr(_stdarg, '_std_arg_parser_instances', None) or {}      # coverage only: may be renamed
+    for k in sorted(cache, key=repr):
+        inst = cache[k]
         inner = getattr(inst, '_arg_parser', None)
         scal = {}
         if inner is not None:
